@@ -80,6 +80,7 @@ def _rect_update(m, scale_kind, iterative, covshape="mm"):
         t.prove_paths("region_is_prediction_scaled" if not iterative else "intersection_or_new_when_disjoint", paths, goal)
         t.prove_paths("lower_le_upper", paths, ordered)
         t.frame_unchanged("frame:mean-cov-scale-not-written", paths, ["mean", "cov", "scale"])
+        t.agree(paths, k=2)
         t.implicit()
     return _t
 
